@@ -43,11 +43,16 @@ instance (m : Mem) : Decidable m.OK := by unfold Mem.OK; infer_instance
 def Mem.grow (m : Mem) : Mem :=
   if m.nvelt ≥ m.msize then { m with msize := 2 * m.msize, arr := m.arr ++ List.replicate m.msize (0, 0) } else m
 
-/-- `vinsertpair`: grow if full, store at index `nvelt`, `vg->nvelt++` **in uint16 arithmetic**, return `(int32)vg->nvelt` -/
-def vinsertpair (m : Mem) (t r : Nat) : Mem × Nat :=
+/-- `vinsertpair` (as fixed by /repo dc883d2): `if (vg->nvelt == MAX_REF) FAIL` — the 16-bit member counter is never
+    wrapped; otherwise grow if full, store at index `nvelt`, `vg->nvelt++`, return `(int32)vg->nvelt`.
+    `none` = FAIL (the Vgroup is left untouched, not even marked).
+    History: before dc883d2 the 65536th insertion wrapped `nvelt` to 0 and the Vgroup silently lost its members
+    (finding F12, rediscovered and proved on the old model as `nvelt_wrap_loses_members`). -/
+def vinsertpair (m : Mem) (t r : Nat) : Option (Mem × Nat) :=
+  if m.nvelt = MAX_REF then none else
   let m1 := m.grow
   let m2 := { m1 with arr := m1.arr.set m1.nvelt (t, r), nvelt := (m1.nvelt + 1) % 65536 }
-  (m2, m2.nvelt)
+  some (m2, m2.nvelt)
 
 /-- `Vdeletetagref`: first index `i < nvelt` with matching tag and ref; shift the cells `i+1 .. nvelt-1` down by one,
     reset the last used cell to `(DFTAG_NULL, 0)`, `nvelt--`.  `none` = pair not found (`FAIL`). -/
@@ -126,15 +131,23 @@ def packVersion (g : VG) : Nat :=
 
 def packPairs (l : List Pair) : Bytes := l.flatMap (fun a => u16 a.1 ++ u16 a.2)
 
+/-- does the record carry the 4-byte flags word?  Current code: `if (vg->flags)`.  With the proposed fix of finding 3
+    (`fixed3`): also whenever the version written is VSET_NEW_VERSION, because that is what `vunpackvg` keys on. -/
+def hasFlagsWord (fixed3 : Bool) (g : VG) : Bool :=
+  g.flags != 0 || (fixed3 && toI16 g.version == VSET_NEW_VERSION)
+
 /-- `vpackvg`: nvelt, tags, refs, name, class, extag, exref, [flags, [nattrs, alist]], version, more, and the
     historical extra byte (`*size = (bb - buf) + 1; *bb = 0`) -/
-def vpackvg (g : VG) : Bytes :=
+def vpackvgF (fixed3 : Bool) (g : VG) : Bytes :=
   u16 g.members.length ++ g.members.flatMap (fun p => u16 p.1) ++ g.members.flatMap (fun p => u16 p.2)
   ++ packStr g.name ++ packStr g.cls ++ u16 g.extag ++ u16 g.exref
-  ++ (if g.flags ≠ 0 then
+  ++ (if hasFlagsWord fixed3 g then
         u32 g.flags ++ (if g.flags &&& VG_ATTR_SET ≠ 0 then u32 g.attrs.length ++ packPairs g.attrs else [])
       else [])
   ++ u16 (packVersion g) ++ u16 g.more ++ [0]
+
+/-- the code as it is in /repo -/
+def vpackvg (g : VG) : Bytes := vpackvgF false g
 
 def getU16 : Bytes → Option (Nat × Bytes)
   | a :: b :: r => some (a.toNat * 256 + b.toNat, r)
@@ -247,6 +260,22 @@ def VG.norm (g : VG) : VG := { g with name := normName g.name, cls := normName g
 def PairOK (p : Pair) : Prop := p.1 < 65536 ∧ p.2 < 65536
 instance (p : Pair) : Decidable (PairOK p) := by unfold PairOK; infer_instance
 
+/-- `VG.WFmem` without the clause "no flags ⇒ not version 4": what the FIXED `vpackvg` stores without loss -/
+def VG.WFfixmem (g : VG) : Prop :=
+  g.members.length < 65536 ∧ (∀ p ∈ g.members, PairOK p) ∧
+  NameMemOK g.name ∧ NameMemOK g.cls ∧ g.extag < 65536 ∧ g.exref < 65536 ∧ g.more < 65536 ∧
+  g.version < 65536 ∧ toI16 g.version ≤ 4 ∧
+  (g.flags ≠ 0 → g.version = VSET_NEW_VERSION) ∧
+  g.flags < 4294967296 ∧
+  (g.flags &&& VG_ATTR_SET ≠ 0 → g.attrs.length < 2147483648 ∧ ∀ p ∈ g.attrs, PairOK p) ∧
+  (g.flags &&& VG_ATTR_SET = 0 → g.attrs = [])
+
+instance (g : VG) : Decidable g.WFfixmem := by unfold VG.WFfixmem; infer_instance
+
+def VG.WFfix (g : VG) : Prop := g.WFfixmem ∧ g.name ≠ some [] ∧ g.cls ≠ some []
+
+instance (g : VG) : Decidable g.WFfix := by unfold VG.WFfix; infer_instance
+
 /-- what `vpackvg` can store without loss, except that an empty name/class is stored like an absent one -/
 def VG.WFmem (g : VG) : Prop :=
   g.members.length < 65536 ∧ (∀ p ∈ g.members, PairOK p) ∧
@@ -332,6 +361,7 @@ structure File where
   vds : List Nat := []                -- `vf->vstree`: refs of the Vdatas (stubs), ascending
   disk : List (Nat × Bytes) := []     -- the DFTAG_VG data elements of the file
   slots : List (Nat × Nat) := []      -- live attach handles (harness slot ↦ Vgroup ref)
+  fixed3 : Bool := false              -- configuration: the library under test has the finding-3 fix of `vpackvg`
 deriving Repr
 
 inductive Out where
@@ -376,21 +406,21 @@ inductive Op where
 deriving Repr, DecidableEq
 
 /-- what `Vdetach` does to a marked Vgroup: `vpackvg` (which may bump the version), `Hputelement`, clear the marks -/
-def flushVG (disk : List (Nat × Bytes)) (r : Nat) (g : VGroup) : List (Nat × Bytes) × VGroup :=
+def flushVG (fx : Bool) (disk : List (Nat × Bytes)) (r : Nat) (g : VGroup) : List (Nat × Bytes) × VGroup :=
   if g.marked then
-    (ains r (vpackvg g.toVG) disk, { g with version := packVersion g.toVG, marked := false, newvg := false })
+    (ains r (vpackvgF fx g.toVG) disk, { g with version := packVersion g.toVG, marked := false, newvg := false })
   else (disk, g)
 
 /-- `Vattach(f, ref, "r")` immediately followed by `Vdetach` on one Vgroup (the body of the loops in `Vlone`/`VSlone`) -/
-def touchVG (disk : List (Nat × Bytes)) (r : Nat) (g : VGroup) : List (Nat × Bytes) × VGroup :=
-  if g.nattach > 0 then flushVG disk r { g with access := max g.access accR }
+def touchVG (fx : Bool) (disk : List (Nat × Bytes)) (r : Nat) (g : VGroup) : List (Nat × Bytes) × VGroup :=
+  if g.nattach > 0 then flushVG fx disk r { g with access := max g.access accR }
   else (disk, { g with access := accR, marked := false })
 
-def touchAll : List (Nat × Bytes) → List (Nat × VGroup) → List (Nat × Bytes) × List (Nat × VGroup)
+def touchAll (fx : Bool) : List (Nat × Bytes) → List (Nat × VGroup) → List (Nat × Bytes) × List (Nat × VGroup)
   | disk, [] => (disk, [])
   | disk, (r, g) :: rest =>
-    let p1 := touchVG disk r g
-    let p2 := touchAll p1.1 rest
+    let p1 := touchVG fx disk r g
+    let p2 := touchAll fx p1.1 rest
     (p2.1, (r, p1.2) :: p2.2)
 
 /-- run `k` on the Vgroup behind a handle; `fail` for a stale handle -/
@@ -457,15 +487,16 @@ def step (s : File) : Op → File × Out
       match alook r s.vgs with
       | none => (s, .bad)
       | some g =>
-        let p := flushVG s.disk r g
+        let p := flushVG s.fixed3 s.disk r g
         ({ s with vgs := aset r { p.2 with nattach := p.2.nattach - 1 } s.vgs, disk := p.1, slots := adel1 slot s.slots }, .ok)
   | .setname slot n => withSlot s slot fun g =>
       if g.access ≠ accW then (g, .fail) else ({ g with name := some (cstr n), marked := true }, .ok)
   | .setclass slot n => withSlot s slot fun g =>
       if g.access ≠ accW then (g, .fail) else ({ g with cls := some (cstr n), marked := true }, .ok)
   | .addtagref slot t r => withSlot s slot fun g =>
-      let p := vinsertpair g.mem (t % 65536) (r % 65536)
-      ({ g with mem := p.1, marked := true }, .int p.2)
+      match vinsertpair g.mem (t % 65536) (r % 65536) with
+      | none => (g, .fail)
+      | some p => ({ g with mem := p.1, marked := true }, .int p.2)
   | .insertvg slot slot2 =>
     match alook slot2 s.slots with
     | none => (s, .fail)
@@ -473,16 +504,18 @@ def step (s : File) : Op → File × Out
       if g.access ≠ accW then (g, .fail)
       else if g.mem.members.contains (DFTAG_VG, r2 % 65536) then (g, .fail)
       else
-        let p := vinsertpair g.mem DFTAG_VG (r2 % 65536)
-        ({ g with mem := p.1, marked := true }, .int ((p.2 : Int) - 1))
+        match vinsertpair g.mem DFTAG_VG (r2 % 65536) with
+        | none => (g, .fail)
+        | some p => ({ g with mem := p.1, marked := true }, .int ((p.2 : Int) - 1))
   | .insertvs slot vsref =>
     if ¬ s.vds.contains vsref then (s, .fail) else
     withSlot s slot fun g =>
       if g.access ≠ accW then (g, .fail)
       else if g.mem.members.contains (DFTAG_VH, vsref % 65536) then (g, .fail)
       else
-        let p := vinsertpair g.mem DFTAG_VH (vsref % 65536)
-        ({ g with mem := p.1, marked := true }, .int ((p.2 : Int) - 1))
+        match vinsertpair g.mem DFTAG_VH (vsref % 65536) with
+        | none => (g, .fail)
+        | some p => ({ g with mem := p.1, marked := true }, .int ((p.2 : Int) - 1))
   | .deltagref slot t r => withSlot s slot fun g =>
       match vdeletetagref g.mem (t % 65536) (r % 65536) with
       | none => (g, .fail)
@@ -530,10 +563,10 @@ def step (s : File) : Op → File × Out
       (g, if id < -1 then .fail else match vgetnext g.mem id with | none => .fail | some r => .int r)
   | .vsgetid id => (s, getidIn s.vds id)
   | .vlone =>
-    let p := touchAll s.disk s.vgs
+    let p := touchAll s.fixed3 s.disk s.vgs
     ({ s with vgs := p.2, disk := p.1 }, .nats (loneOf (·.mem.members) DFTAG_VG (akeys s.vgs) s.vgs))
   | .vslone =>
-    let p := touchAll s.disk s.vgs
+    let p := touchAll s.fixed3 s.disk s.vgs
     ({ s with vgs := p.2, disk := p.1 }, .nats (loneOf (·.mem.members) DFTAG_VH s.vds s.vgs))
   | .find n => (s, findBy (·.name) n s.vgs)
   | .findclass n => (s, findBy (·.cls) n s.vgs)
